@@ -28,6 +28,12 @@ claimed = {
  "C10": ("enumeration of compiler-owned names from the extracted templates of both converters (name positions found lexically: assignment targets, expansions, labels, command words) intersected with the user identifier language read from the lexer's regex syntax trees and keyword table; emission-scheme disjointness decided at template level",
          "Decides, per compiler-owned name pattern, whether a legal user identifier can spell it while user names are emitted unchanged into the same namespace. On the pinned tree every pattern collides (recorded findings); any new or changed pattern is a new violation.",
          "A parser-side reservation check would not be recognised (stated in the evidence); environment beyond PATH/IFS not covered.", "§3 C10"),
+ "C11": ("custom lints over the lexer's syntax tree and type info: regexp/syntax trees of every probe (anchoring, word boundary, greediness before a terminator, can-match-newline, maximal match length), prefix order of the first-match punctuation table, producibility of token types the parser tests, SSA scan for byte→string conversions, per-arm row bookkeeping",
+         "Necessary structural conditions of faithful tokenisation, decided for every probe / table entry / arm. Equality with a reference scanner over all inputs is not decided (needs execution).",
+         "Trusts regexp/syntax as the semantics of the probes and the recognition of the scanning loop's arm chain by shape (first if/else-if chain of the outer loop).", "§3 C11"),
+ "C12": ("AST/SSA rules: guard structure of the token append (SPACE/COMMENT dropped), CRLF normalisation before the loop, forward value flow of Token.Row/Column to error constructors only, inter-procedural 'next token decision' search after every required NEWLINE, overlap of probe first-character sets with the punctuation table vs. conditioning on the previous token",
+         "Necessary structural conditions of layout independence per site. Acceptance/byte equality over all re-layouts is behaviour and not decided.",
+         "The next-decision search is bounded (3 call levels); sites are keyed by function and ordinal.", "§3 C12"),
 }
 na_reason = {
  "C15": "value-level agreement of a TypeShell library executed by a shell with Go's strings package over all arguments; no clause of it is visible in the shape of the Go sources or of std/strings.tsh; static analysis (this task's technique family) cannot address it",
